@@ -87,6 +87,11 @@ def run(ctx: core.Ctx) -> int:
         okm = kws == {k: f"self.{k}" for k in ("symbolic_model", "process_noise", "sensor_models", "sensor_noises", "calibration_map", "config")}
     ctx.oblige("SEQUENCE", where, "self.model_ = compile_ekf(<the adapter's own six parameters>)", okm, file=F, func=q, construct="model_ construction",
                msg="transform does not run the filter compiled from exactly the adapter's own parameters")
+    uncond = bool(mdl) and any(st is mdl[0] for st in tr.body)
+    ctx.oblige("SEQUENCE", where, "the filter is compiled from the current parameters on every call (unconditional top-level statement)", uncond, file=F, func=q,
+               construct="model_ recompiled unconditionally",
+               msg="transform compiles the filter only under a condition (a cached self.model_ is reused): after set_params changes a parameter or a Config "
+                   "field, transform / mahalanobis / score keep evaluating the filter of the earlier parameters")
     # ---- normalised statement list (tuple assignments split, single-assignment aliases substituted)
     from .. import normstmt
     items = normstmt.flatten(tr)
